@@ -3,23 +3,31 @@
   `left : VecDeque<(ts, (key, l))>` is a list (front = head); `right : HashMap<Key, VecDeque<(ts, r)>>` is the
   flat list of `(key, ts, r)` in arrival order (the per-key deque is the sub-list with that key; the map is
   only ever accessed with `get_mut(key)`/`entry(key)`/`clear()`, never iterated, so the output order is
-  fully determined). `Timestamp = i64` is `Int`; `checked_sub/checked_add(..).unwrap_or(MIN/MAX)` are written
-  out with the i64 range.
+  fully determined). `Timestamp = i64` is `Int`; `saturating_sub/saturating_add` are written out as the
+  true integer result clamped to the i64 range.
+
+  History (old behaviour, kept in comments only):
+  * before /repo a398b65 the bounds were `checked_sub(..).unwrap_or(MIN)` / `checked_add(..).unwrap_or(MAX)`,
+    i.e. an UPWARD overflow of `ts - lower_bound` (negative bound) gave `MIN`, a DOWNWARD overflow of
+    `ts + upper_bound` gave `MAX` (non-monotone, spurious pairs);
+  * before /repo 928fdec `last_seen` started at / was reset to `0` (`Default::default()`), so a negative first
+    timestamp tripped `assert!(ts >= self.last_seen)`.
 -/
 import NoirVerif.Model.Elem
 namespace Noir.IntervalJoin
 
+/-- `Timestamp::MIN` (i64) -/
 def TS_MIN : Int := -9223372036854775808
 
-/-- `left_ts.checked_sub(lower_bound).unwrap_or(Timestamp::MIN)` -/
-def lowerOf (ts lb : Int) : Int :=
-  let x := ts - lb
-  if TS_MIN ≤ x ∧ x ≤ TS_MAX then x else TS_MIN
+/-- an integer result saturated to the i64 range, in the direction of the overflow -/
+def clamp (x : Int) : Int :=
+  if x < TS_MIN then TS_MIN else if TS_MAX < x then TS_MAX else x
 
-/-- `left_ts.checked_add(upper_bound).unwrap_or(Timestamp::MAX)` -/
-def upperOf (ts ub : Int) : Int :=
-  let x := ts + ub
-  if TS_MIN ≤ x ∧ x ≤ TS_MAX then x else TS_MAX
+/-- `left_ts.saturating_sub(lower_bound)` (interval_join.rs:88) -/
+def lowerOf (ts lb : Int) : Int := clamp (ts - lb)
+
+/-- `left_ts.saturating_add(upper_bound)` (interval_join.rs:89) -/
+def upperOf (ts ub : Int) : Int := clamp (ts + ub)
 
 variable {κ α β : Type} [DecidableEq κ]
 
@@ -30,7 +38,8 @@ structure State (κ α β : Type) where
   receivedRestart : Bool
   deriving Repr
 
-def State.init : State κ α β := ⟨[], [], 0, false⟩
+/-- `IntervalJoin::new` (interval_join.rs:70-81): `last_seen: Timestamp::MIN` -/
+def State.init : State κ α β := ⟨[], [], TS_MIN, false⟩
 
 /-- `while let Some((right_ts, _)) = right.front() { if *right_ts < lower { pop_front } else { break } }`
     on the deque of `key` inside the flat list -/
@@ -40,7 +49,7 @@ def popOld (key : κ) (lower : Int) : List (κ × Int × β) → List (κ × Int
     if r.1 = key then (if r.2.1 < lower then popOld key lower rs else r :: rs)
     else r :: popOld key lower rs
 
-/-- `advance` (interval_join.rs:70-115): returns remaining left, right and the generated tuples -/
+/-- `advance` (interval_join.rs:84-135): returns remaining left, right and the generated tuples -/
 def advance (lb ub : Int) (lastSeen : Int) (restart : Bool) :
     List (Int × κ × α) → List (κ × Int × β) → List (Int × κ × α) × List (κ × Int × β) × List (Int × κ × α × β)
   | [], right => ([], right, [])
@@ -69,8 +78,9 @@ def step (lb ub : Int) (s : State κ α β) (e : Elem (κ × (α ⊕ β))) : Sta
     let r := if l.isEmpty && s.receivedRestart then [] else r
     let outs := out.map fun o => Elem.ts o.2 o.1
     if s.receivedRestart then
-      -- buffer drained, then `received_restart` ⇒ reset and `FlushAndRestart` (interval_join.rs:134-142)
-      (⟨l, r, 0, false⟩, outs ++ [.far])
+      -- buffer drained, then `received_restart` ⇒ reset (`last_seen = Timestamp::MIN`) and `FlushAndRestart`
+      -- (interval_join.rs:153-161)
+      (⟨l, r, TS_MIN, false⟩, outs ++ [.far])
     else (⟨l, r, s.lastSeen, false⟩, outs)
   match e with
   | .ts (key, .inl v) t => fin { s with lastSeen := t, left := s.left ++ [(t, key, v)] }
@@ -81,7 +91,8 @@ def step (lb ub : Int) (s : State κ α β) (e : Elem (κ × (α ⊕ β))) : Sta
   | .term => (s, [.term])
   | .item _ => (s, [])
 
-/-- specification: same-key pairs with `l.ts - lower ≤ r.ts ≤ l.ts + upper`, stamped `max` -/
+/-- specification: same-key pairs with `l.ts - lower ≤ r.ts ≤ l.ts + upper` (the two bounds saturated to
+    i64), stamped `max` -/
 def spec (lb ub : Int) (L : List (Int × κ × α)) (R : List (κ × Int × β)) : List (Int × κ × α × β) :=
   L.flatMap fun l =>
     (R.filter fun r => decide (r.1 = l.2.1) && decide (lowerOf l.1 lb ≤ r.2.1) && decide (r.2.1 ≤ upperOf l.1 ub)).map
